@@ -14,19 +14,33 @@ Definition is_nonev (v : val) : bool := match v with XNone => true | _ => false 
 Section WithEnv.
 Variable e : henv.
 Variable v_nti : bool.
+(* [fixed12 = true]: the code in /repo; [false]: the code before the repair of D12 (commit "is_instance handles
+   False and bools in unions"): `type_ is int and value is True or value is False` without parentheses, and no
+   union test before the raw isinstance.  Only used by the _refuted theorems. *)
+Variable fixed12 : bool.
+
+(* isinstance(v, X | Y | ...) evaluated by CPython member by member: True at the first member that matches,
+   TypeError (-> `pass`) when a member that cannot be used with isinstance is reached first *)
+Fixpoint raw_union (v : val) (ts : list ty) : bool :=
+  match ts with
+  | [] => false
+  | a :: r => match py_isinstance e v a with
+              | Some true => true
+              | Some false => raw_union v r
+              | None => false
+              end
+  end.
+Definition is_true (v : val) : bool := match v with XBool true => true | _ => false end.
+Definition is_false (v : val) : bool := match v with XBool false => true | _ => false end.
 
 Fixpoint is_instance (t : ty) (v : val) {struct t} : bool :=
-  (* zip(value, args) under all(): lengths are equal when this is called *)
-  let fix zip_all (ts : list ty) (vs : list val) {struct ts} : bool :=
-    match ts, vs with
-    | a :: ts', x :: vs' => is_instance a x && zip_all ts' vs'
-    | _, _ => true
-    end in
   (* 428: if type_ is int and (value is True or value is False): return False *)
-  if is_int_scal t && is_boolv v then false
+  if (if fixed12 then is_int_scal t && is_boolv v else (is_int_scal t && is_true v) || is_false v) then false
   (* 431: if is_union(type_): return any(is_instance(value, t) for t in get_args(type_)) *)
   else match t with
-  | TUnion ts => existsb (fun a => is_instance a v) ts
+  | TUnion ts =>
+    if fixed12 then existsb (fun a => is_instance a v) ts
+    else raw_union v ts || existsb (fun a => is_instance a v) ts     (* pre-repair: raw isinstance first, 448 after *)
   | TNewType a => v_nti && is_instance a v     (* code: isinstance raises TypeError, every later test is False *)
   | _ =>
   (* 434-441: numeric tower, then the raw isinstance; TypeError -> pass *)
@@ -47,7 +61,7 @@ Fixpoint is_instance (t : ty) (v : val) {struct t} : bool :=
       else match ts with
            | [] => Nat.eqb (length (items v)) 0                             (* len(args) == 0 *)
            | _ => if negb (Nat.eqb (length ts) (length (items v))) then false  (* len(args) != len(value) *)
-                  else zip_all ts (items v)
+                  else zip_all (fun a x => is_instance a x) ts (items v)        (* all(... zip(value, args)) *)
            end
     | TTupleVar a =>
       if negb (inst_con CTuple v) then false
